@@ -414,6 +414,22 @@ def sweep(ctx):
             if 'fail' in r:
                 ctx.fail(c01_targets.add_signature(r), f"{r['op']} (step {r['step']}) {r['value']!r} to {r['cls']}.{r['field']} of {r['src']!r} -> {r.get('after')!r}: {r['fail'][:200]}", r)
     ctx.notes['optional_child_added_steps'] = an
+    # line-comment and docstring puts (named by the property): every statement of sources whose statements share lines with block
+    # headers and with each other (`else: c; d`, `finally: b; c`, `def f(): a; b`), every comment / docstring text, put twice
+    cn = 0
+    for lst in pmap(c01_targets.run_cmt_case, c01_targets.cmt_cases()):
+        for r in lst:
+            if 'setup_error' in r:
+                ctx.brk('harness', 'c01_targets comment/docstr set-up', str(r)[:200])
+                continue
+            if 'raised' in r:
+                ctx.tally('cmt_raised', f"{r['case'][0]}:{r['cls']}:{r['raised']}")
+            cn += 1
+            ctx.count(('l', r['case'][0], r['case'][1], r['var'], r['node'], r['si'], r['second']), True)
+            ctx.tally('cmt_api', 'put_line_comment' if r['case'][0] == 'l' else 'put_docstr')
+            if 'fail' in r:
+                ctx.fail(c01_targets.cmt_signature(r), f"{r['op']} (call {r['step']}) on {r['cls']} of {r['src']!r} -> {r.get('after')!r}: {r['fail'][:200]}", r)
+    ctx.notes['line_comment_and_docstring_puts'] = cn
     # witnesses of REPAIRED findings are regression inputs: a 'fixed' entry suppresses nothing, so a witness that fails again
     # (repair reverted or not yet applied) is reported under its own signature
     import framework
@@ -474,7 +490,7 @@ def check_known(ctx, entry):
     w = entry['witness']
     if 'case' in w:
         import c01_targets
-        d = (c01_targets.replay_prim(w) if w['case'][0] == 'p' else c01_targets.replay_move(w) if w['case'][0] == 'm' else c01_targets.replay_par(w) if w['case'][0] == 'r' else c01_targets.replay_opt(w) if w['case'][0] == 'o' else c01_targets.replay_add(w) if w['case'][0] == 'a' else c01_targets.replay(w))
+        d = (c01_targets.replay_prim(w) if w['case'][0] == 'p' else c01_targets.replay_move(w) if w['case'][0] == 'm' else c01_targets.replay_par(w) if w['case'][0] == 'r' else c01_targets.replay_opt(w) if w['case'][0] == 'o' else c01_targets.replay_add(w) if w['case'][0] == 'a' else c01_targets.replay_cmt(w) if w['case'][0] in ('l', 'd') else c01_targets.replay(w))
         if d:
             ctx.fail(entry['id'], entry['what'], w)
         return
@@ -507,7 +523,7 @@ def replay(ctx, data):
         return
     if 'case' in w:                 # a witness of the targeted product sweeps
         import c01_targets
-        d = (c01_targets.replay_prim(w) if w['case'][0] == 'p' else c01_targets.replay_move(w) if w['case'][0] == 'm' else c01_targets.replay_par(w) if w['case'][0] == 'r' else c01_targets.replay_opt(w) if w['case'][0] == 'o' else c01_targets.replay_add(w) if w['case'][0] == 'a' else c01_targets.replay(w))
+        d = (c01_targets.replay_prim(w) if w['case'][0] == 'p' else c01_targets.replay_move(w) if w['case'][0] == 'm' else c01_targets.replay_par(w) if w['case'][0] == 'r' else c01_targets.replay_opt(w) if w['case'][0] == 'o' else c01_targets.replay_add(w) if w['case'][0] == 'a' else c01_targets.replay_cmt(w) if w['case'][0] in ('l', 'd') else c01_targets.replay(w))
         if d:
             ctx.fail('replay', d, w)
         return
